@@ -18,10 +18,18 @@ Space  : every unit name x every SI prefix (bare and inside `2 u`, `u^2`,
 Oracle : models/unitsref.py (own table, own parser, Fraction exponents).
 """
 import itertools
+import json
 import math
+import os
+import subprocess
+import sys
+import tempfile
 
-from ..runner import Result
+from .. import REPO, VERIF
+from ..runner import Result, silence
 from ..models import unitsref as ur
+from ..domains import w4_c10 as w4
+from ..domains.libs import LIBS
 
 LEVEL = 'exploration'
 NUMBERS = ['2', '0.5', '-3', '10']
@@ -57,12 +65,23 @@ BOUND = {'quick': 'names x prefixes: all; <=2 factors over %d bases x %d powers;
                   'reachable exponent r' % (
                       len(FRAC_BASES), len(FRAC_POWERS), len(FRAC_CONTEXTS),
                       FRAC3_BASES['quick'], len(FRAC_RED_POWERS),
-                      len(FRAC_CONV_BASES['quick']), len(FRAC_RED_POWERS)),
+                      len(FRAC_CONV_BASES['quick']), len(FRAC_RED_POWERS)) +
+                  '; prefixed<->bare conversions: all names x all prefixes x 2 '
+                  'directions; process histories (one interpreter each): '
+                  '[import M, table] and [import pgradd.Units, table, import '
+                  'M, table] for each of the %d modules of the pgradd package, '
+                  'all modules at once in 2 orders, [Load L, table] for each '
+                  'of the %d bundled libraries (%d histories), table = names x '
+                  'prefixes x 5 spellings + prefixed<->bare conversions' % (
+                      len(w4.package_modules(REPO)), len(LIBS),
+                      len(w4.histories(REPO, LIBS))),
          'thorough': 'as quick, plus 3 factors over the reduced bases with all '
                      '7 powers, and all two-token edits of 1-factor and '
                      'one-token edits of 3-factor reduced expressions; the '
                      'decimal-power triples and conversions over all %d '
-                     'decimal-power bases' % len(FRAC_BASES)}
+                     'decimal-power bases; the process histories with all '
+                     'ordered name-pair conversions added to every table'
+                     % len(FRAC_BASES)}
 RULE = ('the whole language over the stated factor alphabet up to the size '
         'bound is generated; each text is evaluated by eval_qty and by the '
         'reference evaluator; non-trivial = the text contains a prefix, a '
@@ -75,7 +94,14 @@ RULE = ('the whole language over the stated factor alphabet up to the size '
         '0.3-0.1-0.2 is exactly 0 and 1.4-0.4 exactly 1); a conversion case is '
         'one (source expression, target u^r) pair, compatible iff the exact '
         'exponents are equal; sources the reference finds dimensionless are '
-        'counted but not converted (with_units returns a plain number)')
+        'counted but not converted (with_units returns a plain number); '
+        'process histories: the module list is read from the source tree '
+        'under test (every .py file of the package except tests), every '
+        'history of the stated shapes is run in a fresh interpreter and every '
+        'case of every table in it is judged by the same reference as the '
+        'history-free families (the expectation does not depend on the '
+        'history); an import or load that itself fails ends the history and is '
+        'counted, not judged')
 ASSUMPTIONS = ['magnitudes compared to 1e-6 relative (CODATA vintage of eV, u, '
                'molecule differs by < 1e-7; a wrong prefix or definition is off '
                'by >= 7e-4)', 'BTU is the thermochemical BTU',
@@ -84,7 +110,12 @@ ASSUMPTIONS = ['magnitudes compared to 1e-6 relative (CODATA vintage of eV, u, '
                'a power written as a decimal denotes that decimal exactly '
                '(0.3 = 3/10), so exponents that cancel on paper cancel in the '
                'result; observed exponents are compared to 1e-9 and the '
-               'dimensionless/compatible decision must be the exact one']
+               'dimensionless/compatible decision must be the exact one',
+               'the documented unit names mean the same whatever other part '
+               'of the pgradd package has been imported or used in the '
+               'process (the statement has no proviso about loaded modules); '
+               'importing a pgradd module and loading a bundled library are '
+               'the only history actions enumerated']
 MANIFEST = dict(
     technique='bounded-exhaustive enumeration of the unit-expression language '
               '(plus all one-token deviations) vs an exact reference evaluator',
@@ -97,7 +128,12 @@ MANIFEST = dict(
          'up to three decimal (non-binary) powers of one unit, bare and inside '
          'compound units, must have the exactly cancelled dimension, and every '
          'such two-factor expression is converted to every single power u^r '
-         'it could equal and back.',
+         'it could equal and back. Because the unit table is one '
+         'process-wide registry, the whole name x prefix table (values, '
+         'dimensions and prefixed<->bare conversions) is judged again in fresh '
+         'interpreters after importing each single module of the package '
+         '(before and after a first use of the units), after importing all of '
+         'them, and after loading each bundled library.',
     note='Expressions deeper than the bound, e/E exponents and division by a '
          'literal zero are not judged.',
     ref='5/C10')
@@ -540,9 +576,147 @@ def run_fracconv(R, tier, bi, pi):
         R.sample(dict(convert='3.25 %s -> each of %d targets %s .. %s' % (
             a, len(targets), targets[0], targets[-1])), limit=1)
 
+# ------------------------------------- wave 4: prefixes and process histories
+
+def run_prefixconv(R):
+    """Every name x every prefix converted to the bare name and back again
+    (and the bare name to the prefixed one).  The reference resolves the
+    prefixed text by the documented rule, so `min` is the minute and
+    converting it to `in` must be refused."""
+    for u in all_names():
+        for p in [''] + sorted(ur.PREFIX):
+            a = p + u
+            for src, dst in ((a, u), (u, a)):
+                label, viol = conv_case(src, dst)
+                R.evals += 1
+                R.nontrivial += 1
+                R.outcomes['prefixconv:' + label] += 1
+                if viol:
+                    R.violation(viol[0].replace('fracconv:', 'prefixconv:') +
+                                (':prefix=' + p if p else ':unit=' + u),
+                                viol[1], dict(kind='exprconv', a=src, b=dst))
+    R.sample(dict(convert='3.25 %s -> %s and back' % (a, u)), limit=1)
+
+
+def run_table(R, step):
+    run_names(R)
+    run_prefixconv(R)
+    if 'conv' in step[1:]:
+        run_conversions(R)
+
+
+def do_action(step):
+    """-> None | text describing why the action itself failed."""
+    import importlib
+    if step[0] not in ('import', 'load'):
+        raise ValueError('unknown history action %r' % (step,))
+    try:
+        if step[0] == 'import':
+            importlib.import_module(step[1])
+        else:
+            from ..domains import libs
+            libs.load(step[1])
+    except Exception as e:   # noqa
+        return '%s(%s) raised %s' % (step[0], step[1], type(e).__name__)
+    return None
+
+
+def show(steps):
+    return ', '.join(s[0] if len(s) == 1 else '%s %s' % (s[0], s[1])
+                     for s in steps)
+
+
+def walk_history(R, steps):
+    steps = [list(s) for s in steps]
+    for k, step in enumerate(steps):
+        if step[0] != 'table':
+            failed = do_action(step)
+            if failed:
+                R.evals += 1
+                R.outcomes['history:action failed, history ended (unjudged): '
+                           + failed] += 1
+                R.notes.append('history %s: %s' % (show(steps), failed))
+                return
+            continue
+        sub = Result()
+        run_table(sub, step)
+        R.evals += sub.evals
+        R.nontrivial += sub.nontrivial
+        for key, n in sub.outcomes.items():
+            R.outcomes['history:' + key] += n
+        for v in sub.violations:
+            for _ in range(v['count']):
+                R.violation('history:' + v['key'],
+                            'in a fresh interpreter after [%s]: %s' % (
+                                show(steps[:k]), v['msg']),
+                            dict(kind='history', steps=steps[:k], table=step,
+                                 then=v['witness']))
+    R.sample(dict(history=show(steps)), limit=1)
+
+
+def _history_child(inpath, outpath):
+    """Runs in an interpreter of its own (see run_history)."""
+    silence()
+    job = json.load(open(inpath))
+    if job['mode'] == 'walk':
+        R = Result()
+        walk_history(R, job['steps'])
+        out = R.pack()
+    else:
+        failed = None
+        for step in job['steps']:
+            if step[0] == 'table':
+                run_table(Result(), step)
+            else:
+                failed = failed or do_action(step)
+        out = replay(job['then'])
+        if not out['violates'] and not failed:
+            # the case may need the earlier cases of its own table as well
+            run_table(Result(), job['table'])
+            out = replay(job['then'])
+        out['detail'] = 'after [%s]%s: %s' % (
+            show(job['steps']), ' (%s)' % failed if failed else '',
+            out['detail'])
+    with open(outpath, 'w') as f:
+        json.dump(out, f, default=str)
+
+
+def in_child(job):
+    with tempfile.TemporaryDirectory(prefix='pgv_c10h_') as d:
+        inp = os.path.join(d, 'in.json')
+        outp = os.path.join(d, 'out.json')
+        with open(inp, 'w') as f:
+            json.dump(job, f)
+        p = subprocess.run(
+            [sys.executable, '-c', 'import sys; from mc.props import c10; '
+             'c10._history_child(sys.argv[1], sys.argv[2])', inp, outp],
+            cwd=VERIF, env=dict(os.environ), stdin=subprocess.DEVNULL,
+            stdout=subprocess.PIPE, stderr=subprocess.STDOUT, timeout=3600)
+        if p.returncode != 0 or not os.path.exists(outp):
+            raise RuntimeError('history interpreter for [%s] failed rc=%s: %s'
+                               % (show(job['steps']), p.returncode,
+                                  p.stdout.decode(errors='replace')[-800:]))
+        return json.load(open(outp))
+
+
+def run_history(R, steps):
+    """The registry of unit names cannot be reset, so every history gets an
+    interpreter of its own; nothing of pgradd is imported there before the
+    first action."""
+    pack = in_child(dict(mode='walk', steps=[list(s) for s in steps]))
+    R.evals += pack['evals']
+    R.nontrivial += pack['nontrivial']
+    R.outcomes.update(pack['outcomes'])
+    R.extra.update(pack['extra'])
+    R.violations.extend(pack['violations'])
+    R.samples.extend(pack['samples'])
+    R.notes.extend(pack['notes'][:3])
+
 
 def shards(tier, seed):
-    out = [('names',), ('conv',), ('spacing',)]
+    out = [('names',), ('conv',), ('spacing',), ('prefixconv',)]
+    for h in w4.histories(REPO, LIBS, conv=(tier == 'thorough')):
+        out.append(('history', h))
     for bi in range(len(FRAC_BASES)):
         out.append(('frac2', bi))
     for bi in range(FRAC3_BASES[tier]):
@@ -569,6 +743,10 @@ def run_shard(shard, tier):
         run_conversions(R)
     elif k == 'spacing':
         run_spacing(R)
+    elif k == 'prefixconv':
+        run_prefixconv(R)
+    elif k == 'history':
+        run_history(R, shard[1])
     elif k == 'frac2':
         run_frac2(R, shard[1])
     elif k == 'frac3':
@@ -585,6 +763,9 @@ def run_shard(shard, tier):
 
 
 def replay(w):
+    if w['kind'] == 'history':
+        return in_child(dict(mode='replay', steps=w['steps'], table=w['table'],
+                             then=w['then']))
     if w['kind'] == 'expr':
         cls, msg = compare(w['text'])
         return dict(violates=cls not in ('ok', 'open'),
